@@ -63,7 +63,7 @@ else:
 res["verified_here"]["existing_tests_with_change"] = "pass" if rc == 0 else "FAIL: " + out[-800:]
 demo_files = [f for f in os.listdir(mdir) if f.endswith(".go")]
 copy_to = meta.get("demo_copy_to", "")
-demo_cmd = meta.get("demo_cmd", "")
+demo_cmd = meta.get("demo_cmd", "").replace("<repo root>", wt).replace("<repo-root>", wt).replace("$REPO", wt)
 copied = []
 def copy_demo():
     for f in demo_files:
